@@ -82,6 +82,20 @@ Theorem C03_route_valid_partial :
               ValidTree m src (sink_reqs sinks pl cons allocs) t.
 Proof. exact route_valid_no_repair. Qed.
 
+(* U (corollary): on every fault-free torus or mesh the whole of route() for one net is covered: the call
+   succeeds and the tree satisfies the property's whole sentence, for every placement, allocation,
+   constraint list, radius and stream of draws. *)
+Theorem C03_route_valid_fault_free :
+  forall m source sinks dests pl cons allocs radius s order src,
+    1 <= rm_w m -> 1 <= rm_h m -> fault_free m (has_wrap m) ->
+    zassoc source pl = Some src -> in_range (rm_w m) (rm_h m) src ->
+    Forall (in_range (rm_w m) (rm_h m)) dests -> stream_ok s ->
+    (forall v, In v sinks -> exists c, zassoc v pl = Some c /\ In c dests) ->
+    (forall v a b, In v sinks -> zassoc v allocs = Some (a, b) -> 0 <= a /\ b <= 18) ->
+    exists t, route_net m source sinks dests pl cons allocs radius s order = Ok t /\
+              ValidTree m src (sink_reqs sinks pl cons allocs) t.
+Proof. exact route_valid_fault_free. Qed.
+
 (* U: copy_and_disconnect_tree, for every machine and every tree without a repeated chip: the loop terminates
    within the model's fuel; the copy holds exactly the working chips of the tree, each once; every edge it
    kept is a working link between adjacent chips; each broken pair names a node of the copy and the root of a
